@@ -269,8 +269,18 @@ def o4_3_two_level(mir, tier):
                     i = len(ents); e = (w.key('e%d' % i), BitVec('v%d' % i, 8)); ents.append(e); blk.append(e)
                 blocks.append(blk)
             KE = [w.K(e[0]) for e in ents]
-            pre = list(w.pre) + [klt(KE[i], KE[i + 1]) for i in range(len(ents) - 1)]
-            index = [(blk[-1][0], mir.mk_struct('BlockHandle', offset=bv(1000 * bi), size=bv(100))) for bi, blk in enumerate(blocks)]
+            pre = list(w.pre) + [klt(KE[i], KE[i + 1]) for i in range(len(ents) - 1)] + [ULT(k[1], bv(MAXSEQ)) for k in KE]
+            # index keys by the separator contract (the last key of the block, or a shortened larger user key with the maximal sequence
+            # number): a target between a block's last key and its shortened separator is sent to that block by the index and reaches
+            # the following - unreadable - block only through skip_empty_data_blocks_forward
+            index = []
+            for bi, blk in enumerate(blocks):
+                ik = w.key('ux%d' % bi); IK = w.K(ik); Lk = w.K(blk[-1][0])
+                same = And(IK[0] == Lk[0], IK[1] == Lk[1]); shortened = And(UGT(IK[0], Lk[0]), IK[1] == bv(MAXSEQ))
+                pre.append(Or(same, shortened))
+                if bi + 1 < len(blocks):
+                    Fk = w.K(blocks[bi + 1][0][0]); pre.append(klt(IK, Fk)); pre.append(Implies(shortened, ULT(IK[0], Fk[0])))
+                index.append((ik, mir.mk_struct('BlockHandle', offset=bv(1000 * bi), size=bv(100))))
             lo = sum(shape[:bad]); hi = lo + shape[bad] - 1
             tk = w.key('t'); T = w.K(tk)
             pre += [kle(T, KE[hi])] + ([klt(KE[lo - 1], T)] if lo > 0 else [])       # the target lands in the bad block
